@@ -710,6 +710,7 @@ package gateway
 // facts recorded by the models of net.Conn.Close and errgroup.Group.Wait.
 //@ func (*handler1).run
 //@   opaquecalls
+//@   tags [C23]
 //@   requires [C13] h: h != nil && h.cfg != nil && h.state != nil && state(h) == 0 && bufWF(h)
 //@   assigns *
 //@   at NewConnWithContext.1 before let broker = arg(1)
@@ -720,6 +721,7 @@ package gateway
 // The goroutine that ends the client side of the session: one DISCONNECT exactly when the client is active or awake
 // (a client that disconnected itself is already in the disconnected state: handleMqttSn, plain_disconnect_relayed).
 //@ func (*handler1).run$1
+//@   tags [C23]
 //@   requires [C13] h: h != nil && h.state != nil && state(h) <= 3 && bufWF(h) && snCancel != nil && (state(h) == 1 || state(h) == 3 ==> h.snConn != nil)
 //@   assigns *
 //@   let s0 = old(h.snOutN)
